@@ -68,10 +68,16 @@ Proof. exact fwd_lpq_open. Qed.
 Theorem C04_lpq_closure_masked_is_constant : forall t L p q eps x z,
   cdistp p (transform t x) (transform t z) < eps -> fwd_lpq t L p q eps x z = 1.
 Proof. exact fwd_lpq_masked. Qed.
-Theorem C04_sum_power_closure_is_the_documented_kernel : forall t L q c power x z, length x = length z -> wf_tmat t (length x) ->
+(* the sum-power closure masks every coordinate with |u| < eps before the power is taken: it is the documented kernel when every coordinate of the
+   transformed difference is 0 or at least eps in absolute value *)
+Theorem C04_sum_power_closure_is_the_documented_kernel : forall t L q c eps power x z, length x = length z -> wf_tmat t (length x) ->
   length (transform t x) = length (transform t z) -> length (transform t x) = length x ->
-  fwd_sum_power t L q c power x z = closed_sum_power t L q c power x z.
+  List.Forall (fun u => u = 0 \/ eps <= Rabs u) (vsubR (transform t x) (transform t z)) ->
+  fwd_sum_power t L q c eps power x z = closed_sum_power t L q c power x z.
 Proof. exact fwd_sum_power_closed. Qed.
+Theorem C04_sum_power_closure_masked_coordinate_is_constant : forall L q eps u, Rabs u < eps ->
+  exp (- 1 / Rpower L q * (if Rle_dec eps (Rabs u) then pw (Rmax (Rabs u) eps) q else 0)) = 1.
+Proof. exact fwd_sum_power_masked_coordinate. Qed.
 Print Assumptions C04_product_closure_is_the_documented_kernel.
 Print Assumptions C04_lpq_closure_is_the_documented_kernel.
 Print Assumptions C04_sum_power_closure_is_the_documented_kernel.
@@ -103,12 +109,20 @@ Theorem C04_lpq_gradient_is_the_derivative : forall t L p q eps xs cs z d e,
   List.Forall (fun x => nz (transform t (vsubR z x))) xs ->
   is_derive (fun s => fpred (closed_lpq t L p q) xs cs (vaxpy s e z)) 0 (nth d (grad_lpq t L p q eps xs cs z) 0).
 Proof. exact grad_lpq_is_derivative. Qed.
-Theorem C04_sum_power_gradient_is_the_derivative : forall t L q c power xs cs z d e,
+Theorem C04_sum_power_gradient_is_the_derivative : forall t L q c eps power xs cs z d e,
   wf_tmat t (length z) -> length e = length z -> List.Forall (fun x => length x = length z) xs ->
   sym_at t d (transform t e) (length (transform t z)) ->
+  List.Forall (fun x => List.Forall (fun a => eps <= Rabs a) (transform t (vsubR z x))) xs ->
   List.Forall (fun x => nz (transform t (vsubR z x))) xs ->
-  is_derive (fun s => fpred (closed_sum_power t L q c power) xs cs (vaxpy s e z)) 0 (nth d (grad_sum_power t L q c power xs cs z) 0).
+  is_derive (fun s => fpred (closed_sum_power t L q c power) xs cs (vaxpy s e z)) 0 (nth d (grad_sum_power t L q c eps power xs cs z) 0).
 Proof. exact grad_sum_power_is_derivative. Qed.
+(* a coordinate in which every centre is closer than eps to the query (in particular: coincides with it) contributes 0, a finite number, to the
+   sum-power model gradient, for every exponent (also q < 1, where the unmasked closure has an infinite one-sided slope at 0) *)
+Theorem C04_sum_power_masked_coordinate_contributes_zero : forall L q c eps power m us cs e,
+  List.Forall (fun u => Rabs (nth e u 0) < eps) us ->
+  nth e (gauto (dsp_m L q c eps power) m us cs) 0 = 0.
+Proof. exact sum_power_masked_coordinate_contributes_zero. Qed.
+Print Assumptions C04_sum_power_masked_coordinate_contributes_zero.
 Print Assumptions C04_product_gradient_is_the_derivative.
 Print Assumptions C04_lpq_gradient_is_the_derivative.
 Print Assumptions C04_sum_power_gradient_is_the_derivative.
